@@ -5,33 +5,52 @@ from hypothesis import strategies as st
 from vlib.core import HypClause, Violation
 from vlib import util as U
 
-RULE = ("Hypothesis draws the structure - coefficient-vector length 1..12 (thorough 1..30), its zero pattern (dense, "
-        "random sparse, single term, trailing zeros), Jacobi (alpha,beta), the Q2d (n,m) set (distinct pairs in any "
+RULE = ("Hypothesis draws the structure - coefficient-vector length 1..60 (thorough 1..150), its zero pattern (dense, "
+        "random sparse, single term, trailing zeros), the container of the coefficients (float64 ndarray, strided view of a "
+        "table, float32 ndarray, list, tuple, list of Python ints; where the routine only reads them also an int64 ndarray), Jacobi (alpha,beta) incl. pairs on and next to alpha+beta = 0, -1, the Q2d (n,m) "
+        "set up to n = 20, |m| = 12 (thorough 40, 24) (distinct pairs in any "
         "order: cosine-only, sine-only, mixed, with / without m=0, unequal radial lengths per azimuthal order, "
-        "azimuthal orders present in only one family), coordinate shape (python float, 0-D, 1-D, 2-D), for lstsq the "
-        "number of modes, grid, mode kind and the pattern of NaN / +inf / -inf samples - and an integer from which the "
+        "azimuthal orders present in only one family), coordinate shape (python float, numpy scalar, 0-D, 1-D, 2-D), coordinate dtype "
+        "(float64, float32, for Jacobi complex128) and memory layout (C, Fortran, transposed view, strided view), the entry "
+        "point (jacobi_sum_clenshaw plain / with a caller-supplied alphas buffer / row [0][0] of jacobi_sum_clenshaw_der; "
+        "clenshaw_qbfs, clenshaw_qbfs_der, compute_z_zprime_Qbfs / _Qcon / _Q2d), a history (nothing, or an earlier "
+        "single-precision call / a call with other coefficients), for lstsq the "
+        "number of modes (1..36), grid, mode kind (random, Zernike, Hermite, Legendre, monomials; real or complex), the "
+        "pattern of NaN / +inf / -inf samples (random, row+column, outside the disc, and valid samples only on a "
+        "sub-aperture / a thin annulus / a half plane, which makes disc- or square-orthogonal bases poorly conditioned) - "
+        "and an integer from which the "
         "coefficient values and coordinates are expanded.  Oracle: the explicit sum  sum_k c_k * mode_k  built by the "
         "harness from the scalar mode functions (jacobi, Qbfs, Qcon, Q2d, zernike_nm) or from the mode arrays "
         "themselves (sum_of_2d_modes); structural laws of the Q2d coefficient packer; for lstsq the synthesising "
-        "coefficients, invariance under exchanging one non-finite marker for another, and SciPy's least-squares "
-        "solution on exactly the finite samples for data that is not in the span (every finite sample must count).  "
-        "Tolerances: 1e-10 relative to sum|c_k| max|mode_k| (observed <= 2e-15 quick, 2e-14 thorough) for sums, "
-        "1e-9 max(1, cond/100) for fits (observed 1e-16), condition number < 1e6.  Non-trivial = sparse or length-1 vector, or an azimuthal order present in one family only, or "
-        "a non-finite sample present, or a coordinate array that is not 1-D.")
+        "coefficients, invariance under exchanging one non-finite marker for another, and for data that is not in the "
+        "span the normal-equation residual A^H (A c - d) = 0 over exactly the finite samples (plus SciPy's least-squares "
+        "solution where the conditioning makes two correct solvers agree).  Every fast path is called twice with the "
+        "same argument objects: all arguments (coefficients, coordinates, modes, data, packed vectors) must compare "
+        "equal to copies taken before, the second result must be right too, and the first result must not change when "
+        "the routine is called again with other coefficients.  "
+        "Tolerances: 1e-10 relative to sum|c_k| max|mode_k| (observed <= 2e-14 up to length 300) for sums in double, 1e-3 "
+        "where coordinates or coefficients are single precision (observed <= 6e-6); fits: |c_fit - c| <= (1e-10 + 1000 "
+        "cond eps) max|c| with cond < 1e9 (numpy's SVD solver on the unchanged code: <= 40 cond eps and <= 2e-13 "
+        "absolute over 3000 bases with cond 1 .. 1e10; a normal-equation solver is wrong by cond^2 eps).  Non-trivial = "
+        "sparse or length-1 vector, or an azimuthal order present in one family only, or "
+        "a non-finite sample present, or a coordinate array that is not 1-D, or a non-default container / dtype / layout / "
+        "entry point / history.")
 ASSUMPTIONS = ["the scalar mode functions are the reference for the sums (their own correctness is C07)",
                "numpy / scipy linear algebra is correct", "coefficient vectors are non-empty and dense in order "
-               "(ascending from order 0) as documented; the (n,m) list given to the packer has no repeated pair",
-               "lstsq is only asked to fit when the masked design matrix has condition number < 1e6 (otherwise the case "
-               "is counted as excluded)"]
+               "(ascending from order 0) as documented, floating point (integer ndarrays are not 'iterable of float'); the "
+               "(n,m) list given to the packer has no repeated pair",
+               "lstsq is only asked to fit when the masked design matrix has condition number < 1e9, three orders of "
+               "magnitude inside numpy's default rank cut-off eps * samples (otherwise the case is counted as excluded)"]
 
-LMAX = {'quick': 12, 'thorough': 30}
+LMAX = {'quick': 60, 'thorough': 150}
 DMAX = {'quick': 7, 'thorough': 12}
+EPS = float(np.finfo(np.float64).eps)
 
 
 # ---- shared strategies -----------------------------------------------------------------------------
 def coef_spec(L):
     """[length, pattern, k]: pattern dense | sparse | single | trailing-zeros ; the values come from the case seed"""
-    n = st.one_of(st.sampled_from([1, 2, 3]), st.integers(1, L), st.integers(4, L), st.integers(4, L))
+    n = st.one_of(st.sampled_from([1, 2, 3]), st.integers(1, 12), st.integers(4, 12), st.integers(4, 12), st.integers(13, L))
     return st.tuples(n, st.sampled_from(['dense', 'dense', 'sparse', 'single', 'tail0']), st.integers(0, 10 ** 6)).map(list)
 
 
@@ -63,13 +82,50 @@ def coef_class(c):
     return 'dense' if nz == len(c) else 'sparse'
 
 
+CONTAINERS = ['array', 'array', 'list', 'tuple', 'view', 'array-f32', 'int-list']
+# an integer ndarray of coefficients is only read by jacobi_sum_clenshaw; the Qbfs / Q2d changes of basis allocate their output
+# 'like' the input and truncate on the unchanged tree (repair pending as fixes/C09/06-q-change-of-basis-integer-coefficients):
+# add 'array-int' to CONTAINERS once that repair is in the repository
+CONTAINERS_READ_ONLY = CONTAINERS + ['array-int']
+
+
+def contain(c, how):
+    """(argument object, the float64 values it holds).  array: a float64 ndarray (the object most callers pass, and the one an
+    in-place algorithm would clobber); view: every other element of a longer float64 buffer; array-f32: single precision."""
+    c = np.asarray(c, dtype=np.float64)
+    if how == 'int-list':                     # whole numbers given as Python ints, same zero pattern
+        c = np.sign(c) * np.ceil(np.abs(c) * 5)
+        return [int(v) for v in c], c
+    if how == 'array-int':                    # the same whole numbers as an int64 ndarray
+        c = np.sign(c) * np.ceil(np.abs(c) * 5)
+        return c.astype(np.int64), c
+    if how == 'list':
+        return [float(v) for v in c], c
+    if how == 'tuple':
+        return tuple(float(v) for v in c), c
+    if how == 'view':
+        buf = np.full(2 * len(c), 123.0)
+        buf[::2] = c
+        return buf[::2], c
+    if how == 'array-f32':
+        c32 = c.astype(np.float32)
+        return c32, c32.astype(np.float64)
+    return c.copy(), c
+
+
+def same_values(arg, values):
+    """the argument object still holds the coefficient values it was created with"""
+    a = np.asarray(arg, dtype=np.float64)
+    return a.shape == np.shape(values) and bool(np.all(a == values))
+
+
 def point_spec(D):
     d = st.integers(1, D)
-    return st.one_of(st.just(['pyfloat', []]), st.just(['array', []]), d.map(lambda a: ['array', [a]]),
+    return st.one_of(st.just(['pyfloat', []]), st.just(['npscalar', []]), st.just(['array', []]), d.map(lambda a: ['array', [a]]),
                      st.tuples(d, d).map(lambda t: ['array', list(t)]), st.tuples(d, d).map(lambda t: ['array', list(t)]))
 
 
-def points(spec, seed, lo, hi, salt):
+def points(spec, seed, lo, hi, salt, dtype='float64', layout='C'):
     kind, shape = spec
     r = U.rng_of(seed, salt)
     x = r.uniform(lo, hi, tuple(int(s) for s in shape))
@@ -77,11 +133,23 @@ def points(spec, seed, lo, hi, salt):
     x = np.where(pin == 0, lo, np.where(pin == 1, hi, x))
     if kind == 'pyfloat':
         return float(x)
-    return np.asarray(x, dtype=np.float64)
+    if kind == 'npscalar':
+        return np.float64(x)
+    if dtype.startswith('complex'):
+        r2 = U.rng_of(seed, salt + 1000)
+        x = x + 1j * np.where(r2.integers(0, 4, x.shape) == 0, 0.0, r2.uniform(-0.3, 0.3, x.shape))
+    return U.relayout(np.asarray(x, dtype=dtype), layout)
+
+
+def f64(x):
+    """the double precision value of a coordinate argument (single precision coordinates are exact in double)"""
+    if isinstance(x, float):
+        return x
+    return np.asarray(x, dtype=np.complex128 if np.iscomplexobj(x) else np.float64)
 
 
 def pt_class(spec):
-    return 'pyfloat' if spec[0] == 'pyfloat' else 'ndim%d' % len(spec[1])
+    return spec[0] if spec[0] in ('pyfloat', 'npscalar') else 'ndim%d' % len(spec[1])
 
 
 def _guard(ctx, cls, fn, *a, **k):
@@ -91,14 +159,14 @@ def _guard(ctx, cls, fn, *a, **k):
         raise Violation(v.bucket + ':' + cls, v.msg) from v
 
 
-def explicit_sum(ctx, mode, cs, shape):
+def explicit_sum(ctx, mode, cs, shape, dtype=np.float64):
     """sum_k c_k mode(k) with the magnitude sum_k |c_k| max|mode(k)| that sets the rounding scale"""
-    total = np.zeros(shape)
+    total = np.zeros(shape, dtype=dtype)
     mag = 0.0
     for k, c in enumerate(cs):
         if c == 0:
             continue
-        mk = np.asarray(ctx.call(mode, k), dtype=np.float64)
+        mk = np.asarray(ctx.call(mode, k), dtype=dtype)
         total = total + float(c) * mk
         mag += abs(float(c)) * float(np.max(np.abs(mk))) if mk.size else 0.0
     return total, mag
@@ -109,37 +177,74 @@ def cmp_sum(got, want, mag, bucket, what, rtol=1e-10):
     return U.check_close(got, np.asarray(want), 0.0, bucket, what, atol=rtol * max(mag, 1e-300))
 
 
+def unchanged(ctx, now, before, bucket, what):
+    now, before = np.asarray(now), np.asarray(before)
+    ctx.require(now.shape == before.shape and now.dtype == before.dtype and bool(np.all((now == before) | ((now != now) & (before != before)))),
+                bucket, '%s was modified by the call' % what)
+
+
+def snapshot(x):
+    return x if isinstance(x, float) else np.array(x, copy=True)
+
+
 # ---- sum_of_2d_modes -------------------------------------------------------------------------------
 def strat_tensor(tier):
     D = {'quick': 8, 'thorough': 24}[tier]
     d = st.integers(1, D)
     return st.fixed_dictionaries({
-        'coefs': coef_spec(LMAX[tier]), 'shape': st.one_of(st.tuples(d, d).map(list), d.map(lambda a: [a, a]), d.map(lambda a: [a])),
-        'container': st.sampled_from(['array', 'list', 'list-weights']), 'dtype': st.sampled_from(['float64', 'float64', 'float32']),
-        'seed': U.seeds})
+        'coefs': coef_spec(LMAX[tier]), 'shape': st.one_of(st.tuples(d, d).map(list), d.map(lambda a: [a, a]), d.map(lambda a: [a]),
+                                                           st.just([1, 1]), st.just([67, 263])),
+        'container': st.sampled_from(['array', 'array', 'list', 'list-weights', 'tuple', 'int-weights']),
+        'dtype': st.sampled_from(['float64', 'float64', 'float32', 'complex128']), 'layout': U.layouts,
+        'history': st.sampled_from(['none', 'none', 'single-first', 'other-weights']), 'kw': st.booleans(), 'seed': U.seeds})
 
 
 def check_tensor(case, ctx):
-    """sum_of_2d_modes(modes, w) == sum_k w_k * modes[k] for mode stacks of shape (k, m, n) (and (k, n)), array or list input."""
+    """sum_of_2d_modes(modes, w) == sum_k w_k * modes[k] for mode stacks of shape (k, m, n) (and (k, n)), array / list / tuple
+    input, real or complex modes, any memory layout; arguments unchanged; repeatable."""
     from prysm import polynomials as P
     w = expand_coefs(case['coefs'], case['seed'], 1)
+    container, dtype = case['container'], case['dtype']
+    layout, history = case.get('layout', 'C'), case.get('history', 'none')
+    if container == 'int-weights':
+        w = np.sign(w) * np.ceil(np.abs(w) * 5)          # whole numbers, same zero pattern
     k = len(w)
     shape = tuple(int(s) for s in case['shape'])
-    dtype = case['dtype']
-    modes = U.rng_of(case['seed'], 2).uniform(-1, 1, (k,) + shape).astype(dtype)
+    if int(np.prod(shape)) > 2 ** 12:
+        k = min(k, 5)                                    # the large-array class carries few modes
+        w = w[:k]
+    modes = U.rng_of(case['seed'], 2).uniform(-1, 1, (k,) + shape)
+    if dtype.startswith('complex'):
+        modes = modes + 1j * U.rng_of(case['seed'], 3).uniform(-1, 1, (k,) + shape)
+    modes = U.relayout(modes.astype(dtype), layout)
     cls = coef_class(w)
-    ctx.nt(cls != 'dense' or shape[0] != shape[-1])
-    ctx.label(cls, 'ndim%d' % len(shape), case['container'], dtype, 'k==rows' if k == shape[0] else 'k!=rows')
-    arg_m = modes if case['container'] == 'array' else [m for m in modes]
-    arg_w = w if case['container'] != 'list-weights' else [float(v) for v in w]
-    got = _guard(ctx, cls, P.sum_of_2d_modes, arg_m, arg_w)
-    want = np.zeros(shape)
+    ctx.nt(cls != 'dense' or shape[0] != shape[-1] or dtype != 'float64' or layout != 'C' or container != 'array' or history != 'none')
+    ctx.label(cls, 'ndim%d' % len(shape), container, dtype, 'k==rows' if k == shape[0] else 'k!=rows', 'layout:' + layout,
+              'history:' + history, 'len>=13' if k >= 13 else 'len<13', 'big' if int(np.prod(shape)) > 2 ** 12 else 'small')
+    arg_m = {'list': [m for m in modes], 'list-weights': [m for m in modes], 'tuple': tuple(m for m in modes)}.get(container, modes)
+    arg_w = {'list-weights': [float(v) for v in w], 'tuple': tuple(float(v) for v in w), 'int-weights': w.astype(np.int64)}.get(container, w.copy())
+    if history == 'single-first':
+        _guard(ctx, cls, P.sum_of_2d_modes, modes.astype('complex64' if dtype.startswith('complex') else 'float32'), w.astype(np.float32))
+    elif history == 'other-weights':
+        _guard(ctx, cls, P.sum_of_2d_modes, arg_m, w[::-1].copy())
+    m_before = modes.copy()
+    got = _guard(ctx, cls, P.sum_of_2d_modes, modes=arg_m, weights=arg_w) if case.get('kw', False) else _guard(ctx, cls, P.sum_of_2d_modes, arg_m, arg_w)
+    unchanged(ctx, modes, m_before, 'sum_of_2d_modes:argument-modified:modes', 'the mode stack')
+    ctx.require(same_values(arg_w, w), 'sum_of_2d_modes:argument-modified:weights', 'the weights %r became %r' % ([float(v) for v in w], arg_w))
+    want = np.zeros(shape, dtype=np.complex128 if dtype.startswith('complex') else np.float64)
     for i in range(k):
-        want = want + w[i] * modes[i].astype(np.float64)
+        want = want + w[i] * modes[i].astype(want.dtype)
     U.check_shape(got, shape, 'sum_of_2d_modes:' + cls, 'sum of %d modes of shape %s' % (k, shape))
-    mag = float(np.sum(np.abs(w)))
-    cmp_sum(got, want, mag, 'sum_of_2d_modes:%s:%s' % (cls, dtype), 'sum_of_2d_modes of %d modes %s' % (k, shape),
-            rtol=1e-12 * k if dtype == 'float64' else 1e-5 * k)
+    mag = float(np.sum(np.abs(w))) * (1.5 if dtype.startswith('complex') else 1.0)
+    rtol = 1e-12 * k if dtype in ('float64', 'complex128') else 1e-5 * k
+    cmp_sum(got, want, mag, 'sum_of_2d_modes:%s:%s' % (cls, dtype), 'sum_of_2d_modes of %d modes %s (%s, %s)' % (k, shape, container, layout), rtol=rtol)
+    kept = np.array(got, copy=True)
+    other = _guard(ctx, cls, P.sum_of_2d_modes, arg_m, w[::-1].copy())
+    U.check_equal(np.asarray(got), kept, 'sum_of_2d_modes:result-overwritten', 'the first sum after a second call with other weights')
+    want2 = np.zeros(shape, dtype=want.dtype)
+    for i in range(k):
+        want2 = want2 + w[k - 1 - i] * modes[i].astype(want.dtype)
+    cmp_sum(other, want2, mag, 'sum_of_2d_modes:second-call:%s' % dtype, 'second call with the weights reversed', rtol=rtol)
 
 
 # ---- Jacobi Clenshaw -------------------------------------------------------------------------------
@@ -154,66 +259,131 @@ def strat_jacobi(tier):
                    st.tuples(U.nice_float(-0.95, 0.95), st.sampled_from([5.5e-17, -1.1e-16, 1e-15, 1e-12, -1e-9, 1e-6])).map(lambda t: [t[0], -t[0] + t[1]]),
                    st.tuples(U.nice_float(-0.95, -0.05), st.sampled_from([0.0, 1.1e-16, -2.2e-16, 1e-12, -1e-9])).map(lambda t: [t[0], -1.0 - t[0] + t[1]]))
     return st.fixed_dictionaries({'coefs': coef_spec(LMAX[tier]), 'ab': ab, 'x': point_spec(DMAX[tier]),
-                                  'container': st.sampled_from(['array', 'list']), 'seed': U.seeds})
+                                  'container': st.sampled_from(CONTAINERS_READ_ONLY), 'via': st.sampled_from(['plain', 'plain', 'alphas-buffer', 'der-row0']),
+                                  'xdtype': st.sampled_from(['float64', 'float64', 'float64', 'float32', 'complex128']), 'layout': U.layouts,
+                                  'history': st.sampled_from(['none', 'none', 'single-first', 'other-ab']), 'seed': U.seeds})
 
 
 def check_jacobi(case, ctx):
-    """jacobi_sum_clenshaw(s, a, b, x) == sum_n s_n * jacobi(n, a, b, x), any length >= 1, dense or sparse."""
+    """jacobi_sum_clenshaw(s, a, b, x) (plain, with a caller-supplied alphas buffer, and as row [0][0] of jacobi_sum_clenshaw_der)
+    == sum_n s_n * jacobi(n, a, b, x), any length >= 1, dense or sparse; arguments unchanged; repeatable."""
     from prysm import polynomials as P
-    s = expand_coefs(case['coefs'], case['seed'], 1)
+    from prysm.polynomials.jacobi import jacobi_sum_clenshaw_der
+    s0 = expand_coefs(case['coefs'], case['seed'], 1)
     a, b = case['ab']
-    x = points(case['x'], case['seed'], -1.0, 1.0, 2)
+    via, xdtype, layout, history = case.get('via', 'plain'), case.get('xdtype', 'float64'), case.get('layout', 'C'), case.get('history', 'none')
+    x = points(case['x'], case['seed'], -1.0, 1.0, 2, xdtype, layout)
+    arg, s = contain(s0, case['container'])
     cls, pcls = coef_class(s), pt_class(case['x'])
-    ctx.nt(cls != 'dense' or pcls != 'ndim1')
-    ctx.label(cls, pcls, 'len=%s' % (len(s) if len(s) < 4 else '4+'), 'a+b in {0,-1}' if a + b in (0, -1) else 'general ab')
-    arg = s if case['container'] == 'array' else [float(v) for v in s]
-    got = _guard(ctx, cls, P.jacobi_sum_clenshaw, arg, a, b, x)
-    want, mag = explicit_sum(ctx, lambda n: P.jacobi(n, a, b, x), s, np.shape(x))
+    single = (xdtype == 'float32' and not isinstance(x, float)) or case['container'] == 'array-f32'
+    ctx.nt(cls != 'dense' or pcls != 'ndim1' or via != 'plain' or case['container'] != 'array' or history != 'none' or
+           (not isinstance(x, float) and (xdtype != 'float64' or layout != 'C')))
+    ctx.label(cls, pcls, 'len=%s' % (len(s) if len(s) < 4 else ('4+' if len(s) < 13 else '13+')), 'a+b in {0,-1}' if a + b in (0, -1) else 'general ab',
+              'container:' + case['container'], 'via:' + via, 'history:' + history,
+              *([] if isinstance(x, float) else ['x:' + xdtype, 'layout:' + layout]))
+
+    def fast(sarg, aa, bb, xx):
+        if via == 'alphas-buffer':
+            # 'array to store the alpha sums in': every row is assigned, so what the buffer held before is irrelevant
+            buf = np.full((len(sarg),) + np.shape(xx), 3.25, dtype=np.result_type(np.asarray(xx).dtype, np.float32))
+            return _guard(ctx, cls, P.jacobi_sum_clenshaw, sarg, aa, bb, xx, alphas=buf)
+        if via == 'der-row0':
+            return _guard(ctx, cls, jacobi_sum_clenshaw_der, sarg, aa, bb, xx, j=1)[0][0]
+        return _guard(ctx, cls, P.jacobi_sum_clenshaw, sarg, aa, bb, xx)
+
+    if history == 'single-first' and not isinstance(x, float):
+        fast(arg, a, b, points(case['x'], case['seed'], -1.0, 1.0, 2, 'complex64' if xdtype.startswith('complex') else 'float32', layout))
+    elif history == 'other-ab':
+        fast(arg, a + 1, b + 0.5, x)
+    x_before = snapshot(x)
+    got = fast(arg, a, b, x)
+    ctx.require(same_values(arg, s), 'jacobi_sum_clenshaw:argument-modified:s', 'the coefficients %r became %r (via %s)' % ([float(v) for v in s], arg, via))
+    unchanged(ctx, x, x_before, 'jacobi_sum_clenshaw:argument-modified:x', 'the coordinate array')
+    xd = f64(x)
+    want, mag = explicit_sum(ctx, lambda n: P.jacobi(n, a, b, xd), s, np.shape(x), np.complex128 if np.iscomplexobj(xd) else np.float64)
     U.check_shape(got, np.shape(x), 'jacobi_sum_clenshaw:' + cls, 'sum of %d terms at x of shape %s' % (len(s), np.shape(x)))
-    cmp_sum(got, want, mag, 'jacobi_sum_clenshaw:' + cls,
-            'jacobi_sum_clenshaw(%r, %r, %r) vs explicit sum, x.shape=%s' % ([float(v) for v in s], a, b, np.shape(x)))
+    rtol = 1e-3 if single else 1e-10
+    what = 'jacobi_sum_clenshaw(%r, %r, %r) [%s, %s, x %s %s] vs explicit sum, x.shape=%s' % (
+        [float(v) for v in s], a, b, via, case['container'], xdtype, layout, np.shape(x))
+    cmp_sum(got, want, mag, 'jacobi_sum_clenshaw:' + cls, what, rtol=rtol)
+    # once more with the same objects, after a call with other coefficients: both results right, the first one untouched
+    kept = np.array(got, copy=True)
+    arg2, s2 = contain(s[::-1] * 0.5, case['container'])
+    got2 = fast(arg2, a, b, x)
+    U.check_equal(np.asarray(got), kept, 'jacobi_sum_clenshaw:result-overwritten', 'the first sum after a call with other coefficients (via %s)' % via)
+    want2, mag2 = explicit_sum(ctx, lambda n: P.jacobi(n, a, b, xd), s2, np.shape(x), want.dtype)
+    cmp_sum(got2, want2, mag2, 'jacobi_sum_clenshaw:second-call:' + cls, 'other coefficients, ' + what, rtol=rtol)
+    got3 = fast(arg, a, b, x)
+    cmp_sum(got3, want, mag, 'jacobi_sum_clenshaw:repeat:' + cls, 'the same objects again, ' + what, rtol=rtol)
 
 
 # ---- Qbfs / Qcon -----------------------------------------------------------------------------------
 def strat_q1d(tier):
-    return st.fixed_dictionaries({'fn': st.sampled_from(['clenshaw_qbfs', 'compute_z_zprime_Qbfs', 'compute_z_zprime_Qcon']),
+    return st.fixed_dictionaries({'fn': st.sampled_from(['clenshaw_qbfs', 'clenshaw_qbfs_der', 'compute_z_zprime_Qbfs', 'compute_z_zprime_Qcon']),
                                   'coefs': coef_spec(LMAX[tier]), 'u': point_spec(DMAX[tier]).filter(lambda s: s[0] == 'array'),
-                                  'container': st.sampled_from(['array', 'list']), 'seed': U.seeds})
+                                  'container': st.sampled_from(CONTAINERS), 'udtype': st.sampled_from(['float64', 'float64', 'float64', 'float32']),
+                                  'layout': U.layouts, 'history': st.sampled_from(['none', 'none', 'single-first', 'other-fn']), 'seed': U.seeds})
 
 
 def check_q1d(case, ctx):
-    """clenshaw_qbfs(c, u^2) and the sag returned by compute_z_zprime_Qbfs / _Qcon == sum_n c_n Qbfs(n,u) / Qcon(n,u)."""
+    """clenshaw_qbfs(c, u^2), the surface documented for clenshaw_qbfs_der's alphas, and the sag returned by compute_z_zprime_Qbfs /
+    _Qcon == sum_n c_n Qbfs(n,u) / Qcon(n,u); the coefficient object is not modified and gives the same surface when used again."""
     from prysm import polynomials as P
     from prysm.polynomials import qpoly as Q
-    c = expand_coefs(case['coefs'], case['seed'], 1)
-    u = points(case['u'], case['seed'], 0.0, 1.0, 2)
+    c0 = expand_coefs(case['coefs'], case['seed'], 1)
+    udtype, layout, history = case.get('udtype', 'float64'), case.get('layout', 'C'), case.get('history', 'none')
+    u = points(case['u'], case['seed'], 0.0, 1.0, 2, udtype, layout)
+    arg, c = contain(c0, case['container'])
     cls, pcls, fn = coef_class(c), pt_class(case['u']), case['fn']
-    ctx.nt(cls != 'dense' or pcls != 'ndim1')
-    ctx.label(fn, cls, pcls, 'len=%s' % (len(c) if len(c) < 4 else '4+'))
-    arg = c.copy() if case['container'] == 'array' else [float(v) for v in c]
+    single = udtype == 'float32' or case['container'] == 'array-f32'
+    ctx.nt(cls != 'dense' or pcls != 'ndim1' or case['container'] != 'array' or history != 'none' or udtype != 'float64' or layout != 'C')
+    ctx.label(fn, cls, pcls, 'len=%s' % (len(c) if len(c) < 4 else ('4+' if len(c) < 13 else '13+')), 'container:' + case['container'],
+              'u:' + udtype, 'layout:' + layout, 'history:' + history)
     usq = u * u
-    if fn == 'clenshaw_qbfs':
-        got = _guard(ctx, cls, Q.clenshaw_qbfs, arg, usq)
-        mode = lambda n: P.Qbfs(n, u)   # noqa
-    elif fn == 'compute_z_zprime_Qbfs':
-        res = _guard(ctx, cls, Q.compute_z_zprime_Qbfs, arg, u, usq)
-        ctx.require(len(res) == 2, fn + ':arity', '%s returned %d values' % (fn, len(res)))
-        got = res[0]
-        mode = lambda n: P.Qbfs(n, u)   # noqa
-    else:
-        res = _guard(ctx, cls, Q.compute_z_zprime_Qcon, arg, u, usq)
-        ctx.require(len(res) == 2, fn + ':arity', '%s returned %d values' % (fn, len(res)))
-        got = res[0]
-        mode = lambda n: P.Qcon(n, u)   # noqa
+    ud = f64(u)
+
+    def fast(name, carg, uu, uusq):
+        if name == 'clenshaw_qbfs':
+            return _guard(ctx, cls, Q.clenshaw_qbfs, carg, uusq)
+        if name == 'clenshaw_qbfs_der':
+            al = _guard(ctx, cls, Q.clenshaw_qbfs_der, carg, uusq, j=1)
+            ctx.require(np.shape(al)[:1] == (2,) and np.shape(al)[1] >= 2, name + ':alphas-shape', 'alphas has shape %s' % (np.shape(al),))
+            return (uusq * (1 - uusq)) * 2 * (al[0][0] + al[0][1])       # as documented for the alphas of this function
+        res = _guard(ctx, cls, getattr(Q, name), carg, uu, uusq)
+        ctx.require(len(res) == 2, name + ':arity', '%s returned %d values' % (name, len(res)))
+        return res[0]
+    mode = (lambda n: P.Qcon(n, ud)) if fn == 'compute_z_zprime_Qcon' else (lambda n: P.Qbfs(n, ud))   # noqa
+
+    if history == 'single-first':
+        u32 = points(case['u'], case['seed'], 0.0, 1.0, 2, 'float32', layout)
+        fast(fn, arg, u32, u32 * u32)
+    elif history == 'other-fn':
+        fast('compute_z_zprime_Qbfs' if fn != 'compute_z_zprime_Qbfs' else 'clenshaw_qbfs', arg, u, usq)
+    u_before, usq_before = snapshot(u), snapshot(usq)
+    got = fast(fn, arg, u, usq)
+    ctx.require(same_values(arg, c), fn + ':argument-modified:coefficients', 'the coefficients %r became %r' % ([float(v) for v in c], arg))
+    unchanged(ctx, u, u_before, fn + ':argument-modified:u', 'the radial coordinate array')
+    unchanged(ctx, usq, usq_before, fn + ':argument-modified:usq', 'the squared radial coordinate array')
     want, mag = explicit_sum(ctx, mode, c, np.shape(u))
     U.check_shape(got, np.shape(u), '%s:%s' % (fn, cls), 'sag of %d terms at u of shape %s' % (len(c), np.shape(u)))
-    cmp_sum(got, want, mag, '%s:%s' % (fn, cls), '%s(%r) sag vs explicit sum, u.shape=%s' % (fn, [float(v) for v in c], np.shape(u)))
+    rtol = 1e-3 if single else 1e-10
+    what = '%s(%r) [%s, u %s %s] sag vs explicit sum, u.shape=%s' % (fn, [float(v) for v in c], case['container'], udtype, layout, np.shape(u))
+    cmp_sum(got, want, mag, '%s:%s' % (fn, cls), what, rtol=rtol)
+    kept = np.array(got, copy=True)
+    arg2, c2 = contain(c[::-1] * 0.5, case['container'])
+    got2 = fast(fn, arg2, u, usq)
+    U.check_equal(np.asarray(got), kept, fn + ':result-overwritten', 'the first sag after a call with other coefficients')
+    want2, mag2 = explicit_sum(ctx, mode, c2, np.shape(u))
+    cmp_sum(got2, want2, mag2, '%s:second-call:%s' % (fn, cls), 'other coefficients, ' + what, rtol=rtol)
+    got3 = fast(fn, arg, u, usq)
+    cmp_sum(got3, want, mag, '%s:repeat:%s' % (fn, cls), 'the same coefficient object again, ' + what, rtol=rtol)
+    ctx.require(same_values(arg, c), fn + ':argument-modified:coefficients', 'the coefficients %r became %r after the second use' % ([float(v) for v in c], arg))
 
 
 # ---- Q2d: packer + evaluator -------------------------------------------------------------------------
 def strat_q2d(tier):
-    N, M = {'quick': (8, 6), 'thorough': (16, 10)}[tier]
-    n = st.one_of(st.integers(0, 3), st.integers(0, N))
+    N, M = {'quick': (20, 12), 'thorough': (40, 24)}[tier]
+    n = st.one_of(st.integers(0, 3), st.integers(0, 8), st.integers(0, N))
     content = st.sampled_from(['mixed', 'paired', 'paired', 'cos', 'sin', 'cos+m0', 'sin+m0', 'm0', 'disjoint'])
 
     def pairs(kind):
@@ -235,11 +405,25 @@ def strat_q2d(tier):
             m = st.one_of(st.integers(-3, 3), st.integers(-M, M))
         return st.lists(st.tuples(n, m).map(list), min_size=1, max_size=14, unique_by=lambda p: (p[0], p[1]))
     return st.fixed_dictionaries({'nms': content.flatmap(pairs), 'zero': st.sampled_from(['none', 'none', 'some']),
-                                  'pts': point_spec(DMAX[tier]).filter(lambda s: s[0] == 'array'), 'seed': U.seeds})
+                                  'pts': point_spec(DMAX[tier]).filter(lambda s: s[0] == 'array'),
+                                  'pairs_as': st.sampled_from(['tuples', 'tuples', 'lists', 'ndarray']), 'coefs_as': st.sampled_from(['list', 'list', 'array', 'tuple']),
+                                  'udtype': st.sampled_from(['float64', 'float64', 'float64', 'float32']), 'layout': U.layouts, 'seed': U.seeds})
+
+
+def _deep(v):
+    """a deep, comparable copy of a (possibly nested, possibly None) coefficient structure"""
+    if v is None:
+        return None
+    if isinstance(v, np.ndarray):
+        return [float(e) for e in v] if v.ndim == 1 else [_deep(e) for e in v]
+    if isinstance(v, (list, tuple)):
+        return [_deep(e) for e in v]
+    return float(v)
 
 
 def check_q2d(case, ctx):
-    """Q2d_nm_c_to_a_b obeys its structural laws and compute_z_zprime_Q2d(packed) sag == sum c * Q2d(n, m, u, t)."""
+    """Q2d_nm_c_to_a_b obeys its structural laws and compute_z_zprime_Q2d(packed) sag == sum c * Q2d(n, m, u, t); neither routine
+    modifies what it is given, and the packed vectors give the same surface when used again."""
     from prysm import polynomials as P
     from prysm.polynomials import qpoly as Q
     nms = [(int(n), int(m)) for n, m in case['nms']]
@@ -249,8 +433,10 @@ def check_q2d(case, ctx):
     if case['zero'] == 'some' and len(nms) > 1:
         cs[r.integers(0, 2, len(nms)).astype(bool)] = 0.0
     cs = [float(c) for c in cs]
-    u = points(case['pts'], case['seed'], 0.0, 1.0, 2)
-    t = points(case['pts'], case['seed'], 0.0, 2 * np.pi, 3)
+    udtype, layout = case.get('udtype', 'float64'), case.get('layout', 'C')
+    pairs_as, coefs_as = case.get('pairs_as', 'tuples'), case.get('coefs_as', 'list')
+    u = points(case['pts'], case['seed'], 0.0, 1.0, 2, udtype, layout)
+    t = points(case['pts'], case['seed'], 0.0, 2 * np.pi, 3, udtype, layout)
     cos_m = {m for _, m in nms if m > 0}
     sin_m = {-m for _, m in nms if m < 0}
     fam = ('m0' if any(m == 0 for _, m in nms) else '') + ('cos' if cos_m else '') + ('sin' if sin_m else '')
@@ -263,12 +449,19 @@ def check_q2d(case, ctx):
         cls += ':cos-only-order'
     if sin_m - cos_m:
         cls += ':sin-only-order'
-    ctx.nt(bool(lonely) or any(v == 1 for v in lens.values()) or case['zero'] == 'some' or np.ndim(u) != 1)
+    ctx.nt(bool(lonely) or any(v == 1 for v in lens.values()) or case['zero'] == 'some' or np.ndim(u) != 1 or udtype != 'float64' or layout != 'C'
+           or pairs_as != 'tuples' or coefs_as != 'list')
     ctx.label('families=' + fam, 'order-in-one-family' if lonely else 'orders-paired', 'ndim%d' % np.ndim(u),
               'has-len1-vector' if any(v == 1 for v in lens.values()) else 'no-len1-vector',
-              'unequal-lengths' if any(lens.get(m) != lens.get(-m) for m in cos_m & sin_m) else 'equal-or-unpaired')
+              'unequal-lengths' if any(lens.get(m) != lens.get(-m) for m in cos_m & sin_m) else 'equal-or-unpaired',
+              'pairs_as:' + pairs_as, 'coefs_as:' + coefs_as, 'u:' + udtype, 'layout:' + layout,
+              'maxn>=9' if max(n for n, _ in nms) >= 9 else 'maxn<9')
 
-    packed = _guard(ctx, cls, Q.Q2d_nm_c_to_a_b, list(nms), list(cs))
+    arg_nms = {'lists': [list(p) for p in nms], 'ndarray': np.asarray(nms, dtype=np.int64).reshape(len(nms), 2)}.get(pairs_as, list(nms))
+    arg_cs = {'array': np.asarray(cs, dtype=np.float64), 'tuple': tuple(cs)}.get(coefs_as, list(cs))
+    packed = _guard(ctx, cls, Q.Q2d_nm_c_to_a_b, arg_nms, arg_cs)
+    ctx.require([(int(p[0]), int(p[1])) for p in arg_nms] == nms, 'Q2d_nm_c_to_a_b:argument-modified:nms', 'the (n,m) list %r became %r' % (nms, arg_nms))
+    ctx.require(same_values(arg_cs, np.asarray(cs)), 'Q2d_nm_c_to_a_b:argument-modified:coefs', 'the coefficients %r became %r' % (cs, arg_cs))
     ctx.require(len(packed) == 3, 'Q2d_nm_c_to_a_b:arity', 'returned %d values' % len(packed))
     cm0, ams, bms = packed
     # structural laws
@@ -293,55 +486,89 @@ def check_q2d(case, ctx):
                 ctx.require(v is not None and float(v) == w, 'Q2d_nm_c_to_a_b:entry:' + cls,
                             '%s[m=%d][n=%d] = %r, expected %r (nms=%r)' % (nm, m, n, v, w, nms))
 
+    packed_before = _deep([cm0, ams, bms])
+    u_before, t_before = snapshot(u), snapshot(t)
     res = _guard(ctx, cls, Q.compute_z_zprime_Q2d, cm0, ams, bms, u, t)
     ctx.require(len(res) == 3, 'compute_z_zprime_Q2d:arity', 'returned %d values' % len(res))
+    ctx.require(_deep([cm0, ams, bms]) == packed_before, 'compute_z_zprime_Q2d:argument-modified:coefficients',
+                'the packed coefficient vectors were modified by the evaluation (nms=%r)' % (nms,))
+    unchanged(ctx, u, u_before, 'compute_z_zprime_Q2d:argument-modified:u', 'the radial coordinate array')
+    unchanged(ctx, t, t_before, 'compute_z_zprime_Q2d:argument-modified:t', 'the azimuthal coordinate array')
+    ud, td = f64(u), f64(t)
     want = np.zeros(np.shape(u))
     mag = 0.0
     for (n, m), c in zip(nms, cs):
         if c == 0:
             continue
-        mk = np.asarray(ctx.call(P.Q2d, n, m, u, t), dtype=np.float64)
+        mk = np.asarray(ctx.call(P.Q2d, n, m, ud, td), dtype=np.float64)
         want = want + c * mk
         mag += abs(c) * (float(np.max(np.abs(mk))) if mk.size else 0.0)
     # the Clenshaw route forms sums whose partial terms are larger than the modes: use the coefficient scale as floor
     mag = max(mag, float(np.sum(np.abs(cs))))
+    rtol = 1e-3 if udtype == 'float32' else 1e-10
     U.check_shape(res[0], np.shape(u), 'compute_z_zprime_Q2d:' + cls, 'sag at u of shape %s' % (np.shape(u),))
-    cmp_sum(res[0], want, mag, 'compute_z_zprime_Q2d:sag:' + cls,
-            'compute_z_zprime_Q2d sag vs sum c*Q2d for nms=%r cs=%r u.shape=%s' % (nms, cs, np.shape(u)))
+    what = 'compute_z_zprime_Q2d sag vs sum c*Q2d for nms=%r cs=%r u.shape=%s (%s, %s)' % (nms, cs, np.shape(u), udtype, layout)
+    cmp_sum(res[0], want, mag, 'compute_z_zprime_Q2d:sag:' + cls, what, rtol=rtol)
+    kept = np.array(res[0], copy=True)
+    res2 = _guard(ctx, cls, Q.compute_z_zprime_Q2d, cm0, ams, bms, u, t)
+    U.check_equal(np.asarray(res[0]), kept, 'compute_z_zprime_Q2d:result-overwritten', 'the first sag after a second evaluation')
+    cmp_sum(res2[0], want, mag, 'compute_z_zprime_Q2d:repeat:' + cls, 'the same packed vectors again, ' + what, rtol=rtol)
 
 
 def strat_q2d_direct(tier):
-    N, M = {'quick': (6, 5), 'thorough': (12, 8)}[tier]
-    vec = st.one_of(st.just(0), st.just(0), st.sampled_from([1, 1, 2]), st.integers(1, N))   # radial length, 0 = empty
+    N, M = {'quick': (12, 8), 'thorough': (30, 16)}[tier]
+    vec = st.one_of(st.just(0), st.just(0), st.sampled_from([1, 1, 2]), st.integers(1, 6), st.integers(1, N))   # radial length, 0 = empty
     return st.fixed_dictionaries({'cm0': st.one_of(st.just(-1), vec), 'lens': st.lists(st.tuples(vec, vec).map(list), min_size=0, max_size=M),
-                                  'pts': point_spec(DMAX[tier]).filter(lambda s: s[0] == 'array'), 'seed': U.seeds})
+                                  'pts': point_spec(DMAX[tier]).filter(lambda s: s[0] == 'array'),
+                                  'container': st.sampled_from(['list', 'list', 'array', 'array', 'tuple', 'view']),
+                                  'udtype': st.sampled_from(['float64', 'float64', 'float64', 'float32']), 'layout': U.layouts,
+                                  'history': st.sampled_from(['none', 'none', 'single-first', 'other-coefs']), 'seed': U.seeds})
 
 
 def check_q2d_direct(case, ctx):
-    """compute_z_zprime_Q2d on hand-packed (cm0, ams, bms): equal-length lists, any vector may be empty or of length 1."""
+    """compute_z_zprime_Q2d on hand-packed (cm0, ams, bms): equal-length lists, any vector may be empty or of length 1, each vector
+    a list / tuple / float64 ndarray / strided view; the vectors are not modified and give the same surface when used again."""
     from prysm import polynomials as P
     from prysm.polynomials import qpoly as Q
     M = len(case['lens'])
     alens, blens = [int(v[0]) for v in case['lens']], [int(v[1]) for v in case['lens']]
     r = U.rng_of(case['seed'], 1)
+    container, udtype, layout, history = case.get('container', 'list'), case.get('udtype', 'float64'), case.get('layout', 'C'), case.get('history', 'none')
 
     def vec(n):
         c = r.uniform(-1, 1, n)
         return [float(v) for v in np.where(np.abs(c) < 0.05, 0.05, c)]
+
+    def wrap(v):
+        if v is None or container == 'list':
+            return v
+        return contain(v, container)[0]
     cm0 = None if case['cm0'] < 0 else vec(int(case['cm0']))
     ams = [vec(n) for n in alens]
     bms = [vec(n) for n in blens]
-    u = points(case['pts'], case['seed'], 0.0, 1.0, 2)
-    t = points(case['pts'], case['seed'], 0.0, 2 * np.pi, 3)
+    u = points(case['pts'], case['seed'], 0.0, 1.0, 2, udtype, layout)
+    t = points(case['pts'], case['seed'], 0.0, 2 * np.pi, 3, udtype, layout)
     one_only = any((a == 0) != (b == 0) for a, b in zip(alens, blens))
     has1 = any(v == 1 for v in alens + blens) or (cm0 is not None and len(cm0) == 1)
     cls = ('a-empty' if any(a == 0 and b > 0 for a, b in zip(alens, blens)) else '') + \
           ('b-empty' if any(b == 0 and a > 0 for a, b in zip(alens, blens)) else '') or 'paired'
-    ctx.nt(one_only or has1 or np.ndim(u) != 1)
+    ctx.nt(one_only or has1 or np.ndim(u) != 1 or container != 'list' or udtype != 'float64' or layout != 'C' or history != 'none')
     ctx.label(cls, 'has-len1-vector' if has1 else 'no-len1-vector', 'cm0=%s' % ('None' if cm0 is None else ('empty' if not cm0 else 'given')),
-              'M=0' if M == 0 else 'M>0', 'ndim%d' % np.ndim(u))
-    res = _guard(ctx, cls, Q.compute_z_zprime_Q2d, cm0, ams, bms, u, t)
+              'M=0' if M == 0 else 'M>0', 'ndim%d' % np.ndim(u), 'container:' + container, 'u:' + udtype, 'layout:' + layout, 'history:' + history)
+    a_cm0, a_ams, a_bms = wrap(cm0), [wrap(v) for v in ams], [wrap(v) for v in bms]
+    if history == 'single-first':
+        _guard(ctx, cls, Q.compute_z_zprime_Q2d, a_cm0, a_ams, a_bms, points(case['pts'], case['seed'], 0.0, 1.0, 2, 'float32', layout),
+               points(case['pts'], case['seed'], 0.0, 2 * np.pi, 3, 'float32', layout))
+    elif history == 'other-coefs':
+        _guard(ctx, cls, Q.compute_z_zprime_Q2d, None if cm0 is None else wrap([2 * v for v in cm0]), [wrap(v[::-1]) for v in ams], [wrap(v[::-1]) for v in bms], u, t)
+    u_before, t_before = snapshot(u), snapshot(t)
+    res = _guard(ctx, cls, Q.compute_z_zprime_Q2d, a_cm0, a_ams, a_bms, u, t)
     ctx.require(len(res) == 3, 'compute_z_zprime_Q2d:arity', 'returned %d values' % len(res))
+    ctx.require(_deep([a_cm0, a_ams, a_bms]) == _deep([cm0, ams, bms]), 'compute_z_zprime_Q2d:argument-modified:coefficients',
+                'the coefficient vectors (%s) were modified by the evaluation: cm0=%r ams=%r bms=%r became %r %r %r' % (container, cm0, ams, bms, a_cm0, a_ams, a_bms))
+    unchanged(ctx, u, u_before, 'compute_z_zprime_Q2d:argument-modified:u', 'the radial coordinate array')
+    unchanged(ctx, t, t_before, 'compute_z_zprime_Q2d:argument-modified:t', 'the azimuthal coordinate array')
+    ud, td = f64(u), f64(t)
     want = np.zeros(np.shape(u))
     mag = 0.0
     terms = [((n, 0), c) for n, c in enumerate(cm0 or [])]
@@ -349,24 +576,43 @@ def check_q2d_direct(case, ctx):
         terms += [((n, i + 1), c) for n, c in enumerate(ams[i])]
         terms += [((n, -(i + 1)), c) for n, c in enumerate(bms[i])]
     for (n, m), c in terms:
-        mk = np.asarray(ctx.call(P.Q2d, n, m, u, t), dtype=np.float64)
+        mk = np.asarray(ctx.call(P.Q2d, n, m, ud, td), dtype=np.float64)
         want = want + c * mk
         mag += abs(c) * (float(np.max(np.abs(mk))) if mk.size else 0.0)
     mag = max(mag, sum(abs(c) for _, c in terms))
+    rtol = 1e-3 if udtype == 'float32' else 1e-10
     U.check_shape(res[0], np.shape(u), 'compute_z_zprime_Q2d:' + cls, 'sag at u of shape %s' % (np.shape(u),))
-    cmp_sum(res[0], want, mag, 'compute_z_zprime_Q2d:sag:direct:' + cls,
-            'compute_z_zprime_Q2d sag vs explicit sum, cm0=%r ams=%r bms=%r' % (cm0, ams, bms))
+    what = 'compute_z_zprime_Q2d sag vs explicit sum, cm0=%r ams=%r bms=%r (%s, u %s %s)' % (cm0, ams, bms, container, udtype, layout)
+    cmp_sum(res[0], want, mag, 'compute_z_zprime_Q2d:sag:direct:' + cls, what, rtol=rtol)
+    kept = np.array(res[0], copy=True)
+    res2 = _guard(ctx, cls, Q.compute_z_zprime_Q2d, a_cm0, a_ams, a_bms, u, t)
+    U.check_equal(np.asarray(res[0]), kept, 'compute_z_zprime_Q2d:result-overwritten', 'the first sag after a second evaluation')
+    cmp_sum(res2[0], want, mag, 'compute_z_zprime_Q2d:repeat:direct:' + cls, 'the same coefficient objects again, ' + what, rtol=rtol)
 
 
 # ---- lstsq -----------------------------------------------------------------------------------------
+ORDINARY_MASKS = ['none', 'nan', 'nan', 'inf', 'mixed', 'mixed', 'row', 'disc', 'one-row']
+PARTIAL_MASKS = ['subaperture', 'annulus', 'halfplane']      # valid samples cover only part of the domain the basis is orthogonal on
+COND_MAX = 1e9
+
+
 def strat_lstsq(tier):
     D = {'quick': 10, 'thorough': 20}[tier]
-    d = st.integers(3, D)
-    return st.fixed_dictionaries({
-        'k': st.one_of(st.sampled_from([1, 2, 3]), st.integers(1, 10)), 'shape': st.one_of(st.tuples(d, d).map(list), d.map(lambda a: [a, a])),
-        'modes': st.sampled_from(['random', 'random', 'zernike', 'hermite', 'xy']),
-        'mask': st.sampled_from(['none', 'nan', 'nan', 'inf', 'mixed', 'mixed', 'row', 'disc']),
-        'frac': st.sampled_from([0.05, 0.2, 0.5]), 'container': st.sampled_from(['array', 'list']), 'layout': U.layouts, 'seed': U.seeds})
+    S = {'quick': 26, 'thorough': 40}[tier]
+    d = st.one_of(st.integers(3, D), st.integers(3, D), st.integers(1, D))
+    g = st.integers(0, 10)
+    common = {'kw': st.booleans(), 'frac': st.sampled_from([0.05, 0.2, 0.5]), 'container': st.sampled_from(['array', 'array', 'list', 'tuple']), 'layout': U.layouts,
+              'modes_layout': U.layouts, 'geom': st.tuples(g, g, g).map(list), 'history': st.sampled_from(['none', 'none', 'single-first', 'other-data']),
+              'seed': U.seeds}
+    ordinary = st.fixed_dictionaries(dict(common, **{
+        'k': st.one_of(st.sampled_from([1, 2, 3]), st.integers(1, 10)),
+        'shape': st.one_of(st.tuples(d, d).map(list), d.map(lambda a: [a, a]), st.tuples(d, d).map(list), st.tuples(d, d).map(list), st.just([129, 521])),
+        'modes': st.sampled_from(['random', 'random', 'random-complex', 'zernike', 'hermite', 'xy', 'legendre']), 'mask': st.sampled_from(ORDINARY_MASKS)}))
+    side = st.integers(14, S)
+    partial = st.fixed_dictionaries(dict(common, **{
+        'k': st.one_of(st.integers(3, 36), st.integers(15, 36), st.integers(24, 36)), 'shape': st.one_of(st.tuples(side, side).map(list), side.map(lambda a: [a, a])),
+        'modes': st.sampled_from(['zernike-disc', 'zernike-disc', 'xy', 'legendre', 'hermite', 'zernike']), 'mask': st.sampled_from(PARTIAL_MASKS)}))
+    return st.one_of(ordinary, ordinary, partial)
 
 
 def _mode_stack(kind, k, shape, seed):
@@ -374,56 +620,107 @@ def _mode_stack(kind, k, shape, seed):
     ny, nx = shape
     if kind == 'random':
         return U.rng_of(seed, 5).uniform(-1, 1, (k, ny, nx))
+    if kind == 'random-complex':
+        return U.rng_of(seed, 5).uniform(-1, 1, (k, ny, nx)) + 1j * U.rng_of(seed, 55).uniform(-1, 1, (k, ny, nx))
     y, x = np.meshgrid(np.linspace(-1, 1, ny), np.linspace(-1, 1, nx), indexing='ij')
-    if kind == 'zernike':
-        rr, tt = np.hypot(x, y) / np.sqrt(2), np.arctan2(y, x)
+    if kind in ('zernike', 'zernike-disc'):
+        rr, tt = np.hypot(x, y) / (np.sqrt(2) if kind == 'zernike' else 1.0), np.arctan2(y, x)
         nms = [P.noll_to_nm(j) for j in range(1, k + 1)]
         return np.asarray([P.zernike_nm(n, m, rr, tt) for n, m in nms])
     if kind == 'hermite':
         return np.asarray([P.hermite_He(j // 2, 1.5 * x) * P.hermite_He(j - j // 2, 1.5 * y) for j in range(k)])
+    if kind == 'legendre':
+        return np.asarray([P.legendre(m, x) * P.legendre(n, y) for m, n in [P.xy_j_to_mn(j) for j in range(1, k + 1)]])
     return np.asarray([x ** m * y ** n for m, n in [P.xy_j_to_mn(j) for j in range(1, k + 1)]])
 
 
-def check_lstsq(case, ctx):
-    """lstsq(modes, data with non-finite samples) returns the synthesising coefficients, does not depend on which non-finite
-    marker is used, and on data outside the span equals the least-squares solution over exactly the finite samples."""
-    from prysm import polynomials as P
-    import scipy.linalg
-    k, shape, seed = int(case['k']), tuple(int(s) for s in case['shape']), case['seed']
-    modes = np.asarray(_mode_stack(case['modes'], k, shape, seed), dtype=np.float64)
-    r = U.rng_of(seed, 6)
-    c = r.uniform(-1, 1, k)
-    data = np.zeros(shape)
-    for i in range(k):
-        data = data + c[i] * modes[i]
-    kind, frac = case['mask'], case['frac']
+def _bad_samples(kind, shape, frac, geom, modes_kind, r):
+    """boolean map of the samples that carry a non-finite marker"""
     bad = np.zeros(shape, dtype=bool)
+    y, x = np.meshgrid(np.linspace(-1, 1, shape[0]), np.linspace(-1, 1, shape[1]), indexing='ij')
+    i, j, l = [int(v) for v in geom]
     if kind in ('nan', 'inf', 'mixed'):
         bad = r.uniform(0, 1, shape) < frac
     elif kind == 'row':
         bad[int(r.integers(0, shape[0]))] = True
         bad[:, int(r.integers(0, shape[1]))] = True
+    elif kind == 'one-row':                      # degenerate but valid geometry: every valid sample on one line
+        bad[:] = True
+        bad[int(r.integers(0, shape[0]))] = False
     elif kind == 'disc':
-        y, x = np.meshgrid(np.linspace(-1, 1, shape[0]), np.linspace(-1, 1, shape[1]), indexing='ij')
         bad = np.hypot(x, y) > 1
-    marker = {'nan': [np.nan], 'inf': [np.inf, -np.inf], 'mixed': [np.nan, np.inf, -np.inf], 'row': [np.nan], 'disc': [np.nan],
-              'none': [np.nan]}[kind]
-    marks = np.asarray(marker)[r.integers(0, len(marker), shape)]
-    A = modes.reshape(k, -1)[:, ~bad.ravel()].T
-    if A.shape[0] < k:
-        ctx.exclude('fewer valid samples than modes')
+    elif kind == 'subaperture':
+        bad = ~(np.hypot(x - (-0.5 + i / 10), y - (-0.5 + j / 10)) < 0.25 + 0.05 * l)
+    elif kind == 'annulus':
+        rr = np.hypot(x, y)
+        bad = ~((rr <= 1) & (rr >= 0.5 + 0.045 * l))
+    elif kind == 'halfplane':
+        th = 2 * np.pi * i / 11
+        bad = ~(x * np.cos(th) + y * np.sin(th) > -0.3 + 0.1 * l)
+    if modes_kind == 'zernike-disc' and kind in PARTIAL_MASKS:
+        bad = bad | (np.hypot(x, y) > 1)
+    return bad
+
+
+def _cond(A):
+    if A.shape[0] < A.shape[1] or A.shape[1] == 0:
+        return float('inf')
     sv = np.linalg.svd(A, compute_uv=False)
-    cond = float(sv[0] / sv[-1]) if sv[-1] > 0 else float('inf')
-    if not cond < 1e6:
-        ctx.exclude('masked design matrix ill-conditioned')
-    ctx.nt(bad.any())
-    ctx.label('modes:' + case['modes'], 'mask:' + kind, 'k=%s' % (k if k < 4 else '4+'), 'masked>0' if bad.any() else 'masked=0',
-              'cond<1e2' if cond < 1e2 else 'cond>=1e2', case['container'])
-    arg_modes = modes if case['container'] == 'array' else [m for m in modes]
+    return float(sv[0] / sv[-1]) if sv[-1] > 0 else float('inf')
+
+
+def check_lstsq(case, ctx):
+    """lstsq(modes, data with non-finite samples) returns the synthesising coefficients - also for bases that are independent but
+    poorly conditioned on the valid samples -, does not depend on which non-finite marker is used, and on data outside the span is
+    the least-squares solution over exactly the finite samples; modes and data are not modified."""
+    from prysm import polynomials as P
+    import scipy.linalg
+    k0, shape, seed = int(case['k']), tuple(int(s) for s in case['shape']), case['seed']
+    mkind, kind, frac = case['modes'], case['mask'], case['frac']
+    geom, history, mlay = case.get('geom', [5, 5, 5]), case.get('history', 'none'), case.get('modes_layout', 'C')
+    modes_all = np.asarray(_mode_stack(mkind, k0, shape, seed))
+    cplx = np.iscomplexobj(modes_all)
+    modes_all = modes_all.astype(np.complex128 if cplx else np.float64)
+    r = U.rng_of(seed, 6)
+    c_all = r.uniform(-1, 1, k0) + (1j * U.rng_of(seed, 66).uniform(-1, 1, k0) if cplx else 0.0)
+    bad = _bad_samples(kind, shape, frac, geom, mkind, r)
+    marker = {'inf': [np.inf, -np.inf], 'mixed': [np.nan, np.inf, -np.inf]}.get(kind, [np.nan])
+    marks = np.asarray(marker)[r.integers(0, len(marker), shape)]
+    valid = ~bad.ravel()
+    A_all = modes_all.reshape(k0, -1)[:, valid].T
+    if A_all.shape[0] < 1:
+        ctx.exclude('no valid sample')
+    # the largest leading subset of the modes that is independent (condition number < COND_MAX) on the valid samples:
+    # the condition number of nested column sets is monotone, so bisect
+    k = min(k0, A_all.shape[0])
+    cond = _cond(A_all[:, :k])
+    if not cond < COND_MAX:
+        lo_k, hi_k = 0, k                    # cond(lo_k) fine (0 = nothing known), cond(hi_k) too large
+        while hi_k - lo_k > 1:
+            mid = (lo_k + hi_k) // 2
+            if _cond(A_all[:, :mid]) < COND_MAX:
+                lo_k = mid
+            else:
+                hi_k = mid
+        k = lo_k
+        if k < 1:
+            ctx.exclude('not even one mode is non-zero on the valid samples')
+        cond = _cond(A_all[:, :k])
+    modes, c = np.ascontiguousarray(modes_all[:k]), c_all[:k]
+    A = A_all[:, :k]
+    data = np.tensordot(c, modes, axes=(0, 0))
+    ctx.nt(bad.any() or cplx or history != 'none' or mlay != 'C')
+    dec = 0 if cond < 10 else int(np.floor(np.log10(cond)))
+    ctx.label('modes:' + mkind, 'mask:' + kind, 'k=%s' % (k if k < 4 else ('4+' if k < 11 else '11+')), 'masked>0' if bad.any() else 'masked=0',
+              'cond:1e%d' % dec if dec < 4 else ('cond:1e4..1e6' if dec < 6 else 'cond:1e6..1e9'), 'container:' + case['container'], 'history:' + history,
+              'modes-layout:' + mlay, 'k-reduced' if k < k0 else 'k-as-drawn', 'big' if bad.size > 2 ** 16 else 'small')
+    modes_arg = U.relayout(modes, mlay)
+    arg_modes = {'list': [m for m in modes_arg], 'tuple': tuple(m for m in modes_arg)}.get(case['container'], modes_arg)
     cls = 'mask=' + kind
+    cscale = float(np.max(np.abs(c)))
 
     def fit(d):
-        got = _guard(ctx, cls, P.lstsq, arg_modes, d)
+        got = _guard(ctx, cls, P.lstsq, modes=arg_modes, data=d) if case.get('kw', False) else _guard(ctx, cls, P.lstsq, arg_modes, d)
         got = np.asarray(got)
         U.check_shape(got, (k,), 'lstsq:' + cls, 'coefficients for %d modes' % k)
         return got
@@ -433,34 +730,60 @@ def check_lstsq(case, ctx):
     lay = case.get('layout', 'C')
     ctx.label('layout:' + lay)
     d1 = U.relayout(d1, lay)       # same values, another memory layout (Fortran order / transposed view / strided view)
+    if history == 'single-first':
+        _guard(ctx, cls, P.lstsq, modes.astype(np.complex64 if cplx else np.float32), d1.astype(np.complex64 if cplx else np.float32))
+    elif history == 'other-data':
+        fit(U.relayout(np.where(bad, np.nan, 1.0 + data[::-1, ::-1]), lay))
+    d1_before, m_before = d1.copy(), modes_arg.copy()
     got = fit(d1)
-    tol = 1e-9 * max(1.0, cond / 1e2)
-    U.check_close(got, c, 0.0, 'lstsq:synthesis:' + cls, 'lstsq on %d %s modes %s, %d of %d samples non-finite (cond %.3g)' % (
-        k, case['modes'], shape, int(bad.sum()), bad.size, cond), atol=tol * float(np.max(np.abs(c))))
+    unchanged(ctx, d1, d1_before, 'lstsq:argument-modified:data', 'the data array')
+    unchanged(ctx, modes_arg, m_before, 'lstsq:argument-modified:modes', 'the mode stack')
+    # numpy's SVD solver on the unchanged code: <= 40 cond eps, <= 2e-13 absolute (3000 bases, cond 1 .. 1e10); solving the
+    # normal equations instead is wrong by cond^2 eps
+    tol = 1e-10 + 1e3 * cond * EPS
+    err = U.check_close(got, c, 0.0, 'lstsq:synthesis:' + cls + (':cond>=1e4' if cond >= 1e4 else ''),
+                        'lstsq on %d %s modes %s, %d of %d samples non-finite (cond %.3g, %s, modes %s %s)' % (
+                            k, mkind, shape, int(bad.sum()), bad.size, cond, lay, case['container'], mlay), atol=tol * cscale)
+    ctx.tally('synthesis error/tolerance x1e6', int(1e6 * err / (tol * cscale)))
+    kept = got.copy()
     if bad.any():
         # another assignment of non-finite markers, garbage "underneath": same answer
         d2 = data + 1e3 * r.uniform(-1, 1, shape) * bad
         other = np.asarray([np.inf, -np.inf, np.nan])[r.integers(0, 3, shape)]
         d2[bad] = other[bad]
         got2 = fit(d2)
-        U.check_close(got2, got, 0.0, 'lstsq:marker-dependent:' + cls, 'same mask, different non-finite markers', atol=1e-12 * float(np.max(np.abs(c))))
+        U.check_close(got2, got, 0.0, 'lstsq:marker-dependent:' + cls, 'same mask, different non-finite markers', atol=1e-12 * cscale)
     # data that is not in the span: every finite sample must take part, and only those
-    noise = U.rng_of(seed, 8).uniform(-1, 1, shape)
+    noise = U.rng_of(seed, 8).uniform(-1, 1, shape) + (1j * U.rng_of(seed, 88).uniform(-1, 1, shape) if cplx else 0.0)
     d3 = data + noise
     d3[U.rng_of(seed, 9).uniform(0, 1, shape) < 0.15] = 0.0    # exact zeros are ordinary samples
-    ref = scipy.linalg.lstsq(A, d3.ravel()[~bad.ravel()], lapack_driver='gelsy')[0]
+    b = d3.ravel()[valid]
     d3[bad] = marks[bad]
     got3 = fit(d3)
-    U.check_close(got3, ref, 0.0, 'lstsq:not-exactly-the-finite-samples:' + cls,
-                  'lstsq on noisy data vs scipy least squares over the %d finite samples (cond %.3g)' % (int((~bad).sum()), cond),
-                  atol=tol * max(float(np.max(np.abs(ref))), 1.0))
+    U.check_equal(got, kept, 'lstsq:result-overwritten', 'the first fit after later fits')
+    # least squares over exactly the finite samples  <=>  the residual is orthogonal to every mode on those samples.  A backward
+    # stable solver leaves |A^H (A c - b)| <= C eps |A| (|A c - b| + |A| |c| + |b|); observed C <= 13 (2-norms), 1e4 allowed.
+    # Leaving out one finite sample, or using one marked sample, changes the left side by |mode value| * |residual there| = O(1).
+    res = A @ got3 - b
+    nA = float(np.linalg.norm(A, 2))
+    grad = float(np.linalg.norm(A.conj().T @ res))
+    bound = 1e4 * EPS * nA * (float(np.linalg.norm(res)) + nA * float(np.linalg.norm(got3)) + float(np.linalg.norm(b)))
+    ctx.tally('gradient/bound x1e6', int(1e6 * grad / max(bound, 1e-300)))
+    ctx.require(grad <= bound, 'lstsq:not-exactly-the-finite-samples:' + cls,
+                'lstsq on noisy data: |A^H (A c - d)| = %.3g over the %d finite samples, bound %.3g (cond %.3g): the result is not the '
+                'least-squares solution over exactly those samples' % (grad, int(valid.sum()), bound, cond))
+    if cond < 1e3:
+        ref = scipy.linalg.lstsq(A, b, lapack_driver='gelsy')[0]
+        U.check_close(got3, ref, 0.0, 'lstsq:not-exactly-the-finite-samples:' + cls,
+                      'lstsq on noisy data vs scipy least squares over the %d finite samples (cond %.3g)' % (int(valid.sum()), cond),
+                      atol=(1e-10 + 1e3 * EPS * (cond + cond ** 2)) * max(float(np.max(np.abs(ref))), 1.0))
 
 
 # ---- consumer: Interferogram.pvr -------------------------------------------------------------------
 def strat_pvr(tier):
     return st.fixed_dictionaries({'n': st.integers(24, {'quick': 40, 'thorough': 64}[tier]), 'terms': st.lists(st.integers(1, 37), min_size=1, max_size=6, unique=True),
                                   'holes': st.sampled_from([0.0, 0.0, 0.05, 0.2]), 'radius': st.sampled_from(['auto', 0.8, 1.0]),
-                                  'seed': U.seeds})
+                                  'layout': U.layouts, 'seed': U.seeds})
 
 
 def check_pvr(case, ctx):
@@ -495,11 +818,17 @@ def check_pvr(case, ctx):
         ctx.exclude('too few valid samples for a 36 term fit')
     ctx.nt(bool(holes.any()))
     ctx.label('holes' if holes.any() else 'no-holes', 'radius:%s' % case['radius'], 'n%%2=%d' % (n % 2))
-    ifg2 = ctx.call(Interferogram, data, dx=1.0 / n)
+    lay = case.get('layout', 'C')
+    ctx.label('layout:' + lay)
+    ifg2 = ctx.call(Interferogram, U.relayout(data, lay), dx=1.0 / n)
+    held = np.array(ifg2.data, copy=True)
     got = float(ctx.call(ifg2.pvr, **kw))
+    unchanged(ctx, ifg2.data, held, 'Interferogram.pvr:data-modified', 'the interferogram data')
     vals = surf[inside]
     want = float(vals.max() - vals.min())
-    U.check_close(got, want, 1e-8, 'Interferogram.pvr', atol=1e-8 * amp, what='pvr of a %dx%d map of Fringe terms %r, %d drop-outs' % (n, n, case['terms'], int(holes.sum())))
+    U.check_close(got, want, 1e-8, 'Interferogram.pvr', atol=1e-8 * amp, what='pvr of a %dx%d map of Fringe terms %r, %d drop-outs (%s)' % (n, n, case['terms'], int(holes.sum()), lay))
+    again = float(ctx.call(ifg2.pvr, **kw))
+    U.check_close(again, want, 1e-8, 'Interferogram.pvr:repeat', atol=1e-8 * amp, what='pvr evaluated a second time on the same object')
 
 
 CLAUSES = [
